@@ -112,6 +112,11 @@ struct Cfg {
     /// offer dropping and re-creating an unattached listener (file descriptor number reuse)
     #[serde(default)]
     recreate: bool,
+    /// operations applied (with all checks) at the end of `new_sys`: the histories of one logical
+    /// configuration are distributed over one configuration per first operation, because the
+    /// engine parallelises a configuration only over its first-level branching
+    #[serde(default)]
+    start: Vec<Op>,
 }
 
 #[derive(Clone, Debug, Serialize, Deserialize, PartialEq, Eq)]
@@ -285,6 +290,9 @@ where
             w.model.filler = w.filler.len();
         }
         w.check_len("new")?;
+        for op in cfg.start.clone() {
+            WorldDyn::apply(&mut w, &op)?;
+        }
         Ok(w)
     }
 
@@ -598,6 +606,74 @@ where
     }
 }
 
+/// the alphabet in a model state (a function of the configuration and the model only)
+fn enabled_ops(c: &Cfg, m: &Model, n_listeners: usize) -> Vec<Op> {
+    let mut v = Vec::new();
+    let expiry = c.mode == Mode::Expiry;
+    for l in 0..n_listeners {
+        match m.slots[l] {
+            None => {
+                if c.notification {
+                    v.push(Op::AttachNotification(l));
+                }
+                if c.deadline {
+                    v.push(Op::AttachDeadline(l));
+                }
+            }
+            Some(k) => {
+                // attach twice: same kind, optionally the other kind too
+                let same_is_notification = k == Kind::Notification;
+                if same_is_notification || c.twice_other_kind && c.notification {
+                    v.push(Op::AttachNotification(l));
+                }
+                if !same_is_notification || c.twice_other_kind && c.deadline {
+                    v.push(Op::AttachDeadline(l));
+                }
+            }
+        }
+    }
+    // the first free interval slot only (slots are interchangeable)
+    if let Some(i) = (0..c.intervals).find(|i| m.slots[n_listeners + i].is_none()) {
+        v.push(Op::AttachInterval(i));
+    }
+    for (k, s) in m.slots.iter().enumerate() {
+        if s.is_some() {
+            v.push(Op::DropGuard(k));
+        }
+    }
+    if c.recreate {
+        for l in 0..n_listeners {
+            if m.slots[l].is_none() {
+                v.push(Op::RecreateListener(l));
+            }
+        }
+    }
+    if expiry {
+        v.push(Op::SleepProcess);
+        return v;
+    }
+    for s in 0..c.layout.len() {
+        v.push(Op::Notify(s));
+    }
+    v.push(Op::Process);
+    let ready = !m.ready(n_listeners).is_empty();
+    if ready && c.nodrain {
+        v.push(Op::ProcessNoDrain);
+    }
+    if ready && c.notify_in_cb {
+        for s in 0..c.layout.len() {
+            v.push(Op::ProcessNotifying(s));
+        }
+    }
+    for l in 0..n_listeners {
+        if !m.pending[l].is_empty() {
+            v.push(Op::Drain(l));
+        }
+    }
+    v
+}
+
+
 fn live(slots: &[Option<Kind>]) -> Vec<usize> {
     slots.iter().enumerate().filter(|(_, s)| s.is_some()).map(|(i, _)| i).collect()
 }
@@ -628,71 +704,7 @@ where
     S::Reactor: 'static,
 {
     fn enabled(&self) -> Vec<Op> {
-        let c = &self.cfg;
-        let m = &self.model;
-        let mut v = Vec::new();
-        let expiry = c.mode == Mode::Expiry;
-        for l in 0..self.n_listeners {
-            match m.slots[l] {
-                None => {
-                    if c.notification {
-                        v.push(Op::AttachNotification(l));
-                    }
-                    if c.deadline {
-                        v.push(Op::AttachDeadline(l));
-                    }
-                }
-                Some(k) => {
-                    // attach twice: same kind, optionally the other kind too
-                    let same_is_notification = k == Kind::Notification;
-                    if same_is_notification || c.twice_other_kind && c.notification {
-                        v.push(Op::AttachNotification(l));
-                    }
-                    if !same_is_notification || c.twice_other_kind && c.deadline {
-                        v.push(Op::AttachDeadline(l));
-                    }
-                }
-            }
-        }
-        // the first free interval slot only (slots are interchangeable)
-        if let Some(i) = (0..c.intervals).find(|i| m.slots[self.n_listeners + i].is_none()) {
-            v.push(Op::AttachInterval(i));
-        }
-        for (k, s) in m.slots.iter().enumerate() {
-            if s.is_some() {
-                v.push(Op::DropGuard(k));
-            }
-        }
-        if c.recreate {
-            for l in 0..self.n_listeners {
-                if m.slots[l].is_none() {
-                    v.push(Op::RecreateListener(l));
-                }
-            }
-        }
-        if expiry {
-            v.push(Op::SleepProcess);
-            return v;
-        }
-        for s in 0..c.layout.len() {
-            v.push(Op::Notify(s));
-        }
-        v.push(Op::Process);
-        let ready = !m.ready(self.n_listeners).is_empty();
-        if ready && c.nodrain {
-            v.push(Op::ProcessNoDrain);
-        }
-        if ready && c.notify_in_cb {
-            for s in 0..c.layout.len() {
-                v.push(Op::ProcessNotifying(s));
-            }
-        }
-        for l in 0..self.n_listeners {
-            if !m.pending[l].is_empty() {
-                v.push(Op::Drain(l));
-            }
-        }
-        v
+        enabled_ops(&self.cfg, &self.model, self.n_listeners)
     }
 
     fn apply(&mut self, op: &Op) -> Result<(), Fail> {
@@ -790,6 +802,7 @@ fn cfg(variant: Variant, layout: &[usize]) -> Cfg {
         notify_in_cb: false,
         twice_other_kind: false,
         recreate: false,
+        start: Vec::new(),
     }
 }
 
@@ -865,7 +878,21 @@ impl Harness for H {
         for variant in [Variant::Local, Variant::LocalSelect] {
             v.push((Cfg { mode: Mode::Expiry, deadline: true, intervals: 2, notification: false, ..cfg(variant, &[1]) }, plan(if q { 4 } else { 5 }, 5)));
         }
-        v
+        // one configuration per first operation (see `Cfg::start`); the depth stays the same: the
+        // start operation counts as the first step
+        let mut expanded: Vec<(Cfg, Plan)> = Vec::new();
+        for (c, p) in v {
+            if c.mode != Mode::Exhaustive || c.variant == Variant::Ipc || p.tree_depth < 5 {
+                expanded.push((c, p));
+                continue;
+            }
+            let n: usize = c.layout.iter().sum();
+            let m = Model { slots: vec![None; n + c.intervals], pending: vec![BTreeMap::new(); n], filler: 0, capacity: usize::MAX };
+            for op in enabled_ops(&c, &m, n) {
+                expanded.push((Cfg { start: vec![op], ..c.clone() }, Plan { tree_depth: p.tree_depth - 1, split: (p.split / 2).max(1), ..p.clone() }));
+            }
+        }
+        expanded
     }
 
     fn new_sys(&self, cfg: &Cfg) -> Result<Sys, Fail> {
